@@ -60,6 +60,16 @@ Theorem C10_reduce_routes : forall c multi r,
 Proof. exact reduce_routes. Qed.
 Print Assumptions C10_reduce_routes.
 
+(* what np.array(view) is: (array & mask) >> lsb with the translated least_significant_bit_set, a sub-view keeps the mask;
+   (array * scale) + offset with scale/offset along the last axis; the two numpy protocols convert views then apply *)
+Theorem C10_view_shapes :
+  sfv_value_is_masked_shifted = true /\ sfv_getitem_keeps_mask = true
+  /\ sav_value_is_apply_scale = true /\ sav_apply_scale = ScaleMulAdd /\ sav_remove_scale = UnscaleSubDivRound
+  /\ av_ufunc_converts_then_applies = true /\ av_function_converts_then_applies = true
+  /\ av_convert_recurses_lists_tuples = true.
+Proof. exact view_shapes. Qed.
+Print Assumptions C10_view_shapes.
+
 (* numpy functions and ufuncs (__array_function__, __array_ufunc__): numpy's callable receives the same expression
    with every view of the receiver's class, at any depth of lists/tuples, replaced by np.array(view); none is left *)
 Theorem C10_array_function : forall (V A X R : Type) (mat : V -> A) (f : list (arg V A X) -> R) args,
